@@ -108,3 +108,24 @@ def detuning_map_3d(doc: dict, params: dict) -> bool:
 
 
 MATCHERS["detuning_map_3d"] = detuning_map_3d
+
+
+def full_default_with_own_times(doc: dict, params: dict) -> bool:
+    """default_evaluation_times == 'Full' and some observable has its own times."""
+    cfg = doc["world"].get("v2_config") or {}
+    return cfg.get("default_evaluation_times") == "Full" and any(o.get("evaluation_times") for o in cfg.get("observables", []))
+
+
+MATCHERS["full_default_with_own_times"] = full_default_with_own_times
+
+
+def strict_switch_with_slm_mask(doc: dict, params: dict) -> bool:
+    """A strict device switch of a sequence that configured an SLM mask."""
+    step = doc["expected"].get("step", len(doc["trace"]) - 1)
+    tr = doc["trace"]
+    if step >= len(tr) or tr[step]["op"]["op"] != "switch_device" or not tr[step]["op"].get("strict"):
+        return False
+    return any(r["op"]["op"] == "config_slm_mask" for r in tr[:step])
+
+
+MATCHERS["strict_switch_with_slm_mask"] = strict_switch_with_slm_mask
